@@ -34,6 +34,9 @@ def hit(name, n=1):
 
 
 def record(kind, msg, **witness):
+    COUNTS["recorded:" + kind] += 1
+    if sum(1 for v in VIOLS if v["kind"] == kind) >= 5:  # keep the first few witnesses per kind and case
+        return
     stack = [f"{f.filename.split('/gaftools/')[-1]}:{f.lineno}:{f.name}"
              for f in traceback.extract_stack()[:-1] if "/gaftools/" in f.filename]
     VIOLS.append({"kind": kind, "msg": msg, "witness": witness, "stack": stack[-6:]})
